@@ -307,13 +307,13 @@ esl_msafile_a2m_Read(ESL_MSAFILE *afp, ESL_MSA **ret_msa)
      */
     if (thislen == 0)
       {
-        ESL_ALLOC(csflag[nseq], sizeof(char) * 1);
+        ESL_REALLOC(csflag[nseq], sizeof(char) * 1);   // REALLOC, not ALLOC: a record of only ignored characters ("...", "O") has allocated these already
         csflag[nseq][0] = TRUE;                       // csflag[] needs a sentinel even if there's no seq; make one.
         if (msa->abc) {
-          ESL_ALLOC(msa->ax[nseq], sizeof(ESL_DSQ) * 2);
+          ESL_REALLOC(msa->ax[nseq], sizeof(ESL_DSQ) * 2);
           msa->ax[nseq][0] = msa->ax[nseq][1] = eslDSQ_SENTINEL;
         } else {                                      // text mode: ax[] is NULL; it's aseq[] that needs an empty seq
-          ESL_ALLOC(msa->aseq[nseq], sizeof(char) * 1);
+          ESL_REALLOC(msa->aseq[nseq], sizeof(char) * 1);
           msa->aseq[nseq][0] = '\0';
         }
       }
